@@ -155,10 +155,13 @@ func C09(c *Ctx) int {
 			EndInBranch: i%6 == 4, MaxDepth: 3 + i%2, MaxSize: 4 + i%6, MaxBranch: 2 + i%2}
 		ps = append(ps, gen.Random(fmt.Sprintf("c09_%d_%d", c.Seed, i), c.Seed*1000+int64(i), ft))
 	}
+	// (a token whose own sequence flow is not taken ends after the flow trace it sends)
+	ps = append(ps, gen.ForkAtTheEdgeShapes()...)
+	ps = append(ps, gen.OrWithInnerFork("taskfirstfalse", true))
 	c.grammarRound(fs, ps, "grammar")
 	// the same programs with every flow held just before it sends the flow trace that announces
 	// the flows it forks: a forked flow must not be heard of before that trace
-	c.grammarRoundOpts(fs, ps[:len(ps)/2], "grammar-announce", JobOpts{Auto: true, Perturb: 3, Seed: c.Seed, Sub2: true, HoldPoints: []string{"flow.flowtrace"}})
+	c.grammarRoundOpts(fs, ps[len(ps)/2:], "grammar-announce", JobOpts{Auto: true, Perturb: 3, Seed: c.Seed, Sub2: true, HoldPoints: []string{"flow.flowtrace"}})
 	return c.Finish("model_checking", "Tracer.tla (code-shaped model of the tracer goroutine, senders, subscribers joining/leaving, bounded buffers, termination) checked exhaustively by TLC for small constants (contiguity, nothing missed, sender order, close-once, no deadlock, eventual quiescence); recorded runs of the real tracer (1..8 senders, 1..4 subscribers, buffers 0..64, join/leave at random points, slow consumers, cancellation) validated against TracerTrace with the global order taken from the tracer.take hook; causality grammar (TraceGrammar) validated on full engine runs with two simultaneous subscribers", false, fs)
 }
 
